@@ -8,7 +8,7 @@ import itertools, json, re
 import gen, lang, meta, findings
 
 PROP_FILE = 'Props/C06.v'
-GROUPS = ['transformers']
+GROUPS = ['transformers', 'bodyform', 'tables']
 LEAF_LEMMAS = []
 ASSUMPTIONS = ['that gringo instantiates rules as the substitution semantics says (G1) is trusted and tested here, not proved',
                'the harness instantiates schemata by textual substitution of the variables X, Y over the domain {1,2}']
@@ -140,6 +140,37 @@ def schemata():
     return S
 
 
+# atom arguments inside body formulas: ground terms, written out and substituted for a variable
+SYMTERMS = ['1', '-1', '0', '-0', 'a', '-a', '"s"', '""', r'"a\"b"', r'"x\\y"', r'"l\nm"', r'"\\"', r'"\"\""', 'f(1)', 'f(-2)', '-f(1)', 'f(-a)', '(1,2)', '(1,)', '()', 'f((1,2),"")', '#inf', '#sup', 'f(#inf)',
+            '-f(-g(-1))', 'f(a,b)', 'g("")', '((1,2),3)', '- -1', 'f("#inf")', '"#inf"', '"-1"', 'f(1+2)', '3-1', '1-3', '2-(1-3)', 'f(2-1-1)', 'f(-(1+1))', '1..2', 'a;b', 'f(a;b)', '_x', "x'y", 'ab_1("")', 'f(g(h(i(-1,"",()))))',
+            '"&"', '"~"', 'f(">")', '-"a"', '-#inf', '1+a', 'f(1+a)', '-(1,2)', 'f(-(1,2))']
+
+
+def symbol_cases(ctx):
+    """create_symbol of /repo against Model/Symbols.create_symbol on the theory terms gringo delivers, and against the symbols clingo binds the variable to"""
+    res = ctx.impl().run([{'cmd': 'symterms', 'terms': SYMTERMS}], timeout=60)[0]
+    cex, n = [], 0
+    if res.get('status') != 'ok':
+        return [{'key': 'c06:symterms', 'what': 'the term run fails: %s' % json.dumps({k: res.get(k) for k in ('status', 'type', 'msg')}), 'input': {'symterm': SYMTERMS[0]}}], 0
+    lines, index = [], []
+    for t, rec in zip(SYMTERMS, res['out']):
+        for mode in ('subst', 'written'):
+            for tok, r in rec.get(mode, {}).get('items', []):
+                lines.append('csym ' + tok)
+                index.append((t, mode, tok, r))
+    mod = ctx.model().run(lines, timeout=30) if lines else []
+    for (t, mode, tok, r), m in zip(index, mod):
+        n += 1
+        if (m or '').strip() != r:
+            cex.append({'key': 'c06:symbol:%s:%s' % (mode, t), 'what': 'argument %s of an atom inside a body formula (%s): create_symbol gives %s, Model/Symbols.create_symbol gives %s (theory term %s)' % (t, mode, r, m, tok), 'input': {'symterm': t}})
+    for t, rec in zip(SYMTERMS, res['out']):
+        if 'items' in rec.get('subst', {}) and '-(' not in t:       # (gringo drops the sign of a negated tuple when it writes it into a theory term)
+            got = sorted(r for _, r in rec['subst']['items'])
+            if got != rec.get('bound') and 'raises' not in got:
+                cex.append({'key': 'c06:bound:%s' % t, 'what': 'a variable bound to %s inside a body formula: the atom is looked up with %s, the variable is bound to %s' % (t, got, rec.get('bound')), 'input': {'symterm': t}})
+    return cex, n
+
+
 def run(ctx):
     S = schemata()
     rng = ctx.rng('combos')
@@ -171,7 +202,9 @@ def run(ctx):
                         'input': {'schema': inputs[2 * i][0], 'ground': inputs[2 * i + 1][0], 'H': H}})
         elif 'ok' in a and any(a['ok'].values()):
             nontriv.add(inputs[2 * i][0])
-    cov = {'evaluations': len(inputs), 'distinct_nontrivial': len(nontriv),
+    scex, sn = symbol_cases(ctx)
+    cex += scex
+    cov = {'evaluations': len(inputs) + sn, 'atom_argument_terms': len(SYMTERMS), 'atom_argument_theory_terms_compared': sn, 'distinct_nontrivial': len(nontriv),
            'rule': '%d rule schemata (variables, arithmetic, comparisons, pools, intervals, classical negation, primes, conditional literals, aggregates, #show/#external, variables in &tel/&del '
                    'bodies and &tel heads, element conditions, n-fold prefixes) in every applicable program part, alone and in random combinations of 2-3, over the domain {1,2}; each paired with '
                    'its instantiation; horizons 0..%d compared with multiplicity; non-trivial = distinct schema program with at least one answer set' % (len(S), H),
@@ -181,5 +214,12 @@ def run(ctx):
 
 def replay(ctx, payload):
     inp = payload['input']
+    if 'symterm' in inp:
+        global SYMTERMS
+        keep, SYMTERMS = SYMTERMS, [inp['symterm']]
+        try:
+            return bool(symbol_cases(ctx)[0])
+        finally:
+            SYMTERMS = keep
     res = meta.answer_sets(ctx, [[inp['schema']], [inp['ground']]], inp.get('H', 2), timeout=90)
     return not meta.same(res[0], res[1])
